@@ -129,8 +129,10 @@ class FakeQueue:
         self.items = []
         self.waiter = None
         self.sim = Sim.active
+        self.puts = 0
 
     def put(self, item, block=True, timeout=None):
+        self.puts += 1
         self.items.append(item)
         w = self.waiter
         if w is not None and w.state == 'waiting':
